@@ -8,6 +8,7 @@
 #ifndef _PyImathFunOperators_h_
 #define _PyImathFunOperators_h_
 
+#include <stdexcept>
 #include <ImathVec.h>
 #include <ImathMatrixAlgo.h>
 #include <ImathColorAlgo.h>
@@ -184,6 +185,7 @@ struct divs_op
     static int
     apply(int x, int y)
     {
+        if (y == 0) throw std::domain_error ("Division by zero");
         return IMATH_NAMESPACE::divs(x,y);
     }
 };
@@ -193,6 +195,7 @@ struct mods_op
     static int
     apply(int x, int y)
     {
+        if (y == 0) throw std::domain_error ("Division by zero");
         return IMATH_NAMESPACE::mods(x,y);
     }
 };
@@ -202,6 +205,7 @@ struct divp_op
     static int
     apply(int x, int y)
     {
+        if (y == 0) throw std::domain_error ("Division by zero");
         return IMATH_NAMESPACE::divp(x,y);
     }
 };
@@ -211,6 +215,7 @@ struct modp_op
     static int
     apply(int x, int y)
     {
+        if (y == 0) throw std::domain_error ("Division by zero");
         return IMATH_NAMESPACE::modp(x,y);
     }
 };
